@@ -8,8 +8,8 @@ from . import core
 from . import c08_sched as S
 
 PROP = "C10"
-LEAN_TARGETS = ["Asynkit.Props.C10"]
-PROPS_FILES = ["Asynkit/Props/C10.lean"]
+LEAN_TARGETS = ["Asynkit.Props.C10", "Asynkit.Lemmas.GenEqSched"]
+PROPS_FILES = ["Asynkit/Props/C10.lean", "Asynkit/Lemmas/GenEqSched.lean"]
 DRIVERS = ["Sched"]
 TRUSTED = [
     "Lean 4.33 kernel; axioms ⊆ {propext, Classical.choice, Quot.sound} (audited per theorem each run)",
